@@ -79,6 +79,7 @@ structure Scn where
   allow : Bool := false
   startValue : Option Val := none
   cur0 : Option Val := none
+  actByState : Bool := false                  -- `act` rows are keyed by the state value the callback sees, not by trigger id
   fuel : Nat := 100000
   ops : Array Op := #[]
   raw : Array (List String) := #[]            -- lines for other kinds
@@ -91,7 +92,8 @@ structure Scn where
 deriving Inhabited
 
 def Scn.behav (s : Scn) : CbId → Nat → Obs → Act := fun cb _ o =>
-  match s.acts.find? (fun r => r.cb == cb && r.lo ≤ o.tid && o.tid ≤ r.hi) with
+  let key := if s.actByState then o.state.getD 999 else o.tid
+  match s.acts.find? (fun r => r.cb == cb && r.lo ≤ key && key ≤ r.hi) with
   | some r => r.act
   | none => { ret := 0 }
 
@@ -184,6 +186,7 @@ def addLine (s : Scn) (toks : List String) : Scn :=
       allow := boolOf (look kv "allow")
       startValue := optNat (look kv "start")
       cur0 := optNat (look kv "cur")
+      actByState := look kv "actkey" == "state"
       fuel := if look kv "fuel" == "-" then s.fuel else natOf (look kv "fuel") }
   | "tok" :: id :: falsy :: r :: _ => { s with toks := s.toks ++ [(natOf id, boolOf falsy, r)] }
   | "state" :: rest =>
